@@ -752,6 +752,7 @@ func genSubincludes(maxN int, emit emitFn) {
 		{"assignment", `v = 1`}, {"comment", `# c`}, {"blank", ``}, {"eol-comment", `subinclude("//g:g")  # c`},
 		{"multi-line", "subinclude(\n    \"//h:h\",\n)"}, {"nested", "if True:\n    subinclude(\"//i:i\")\n    subinclude(\"//j:j\")"},
 		{"concat-arg", `subinclude("//k" ":k")`}, {"fstring-arg", `subinclude(f"//l:l")`}, {"other-call", `package(default_visibility = ["PUBLIC"])`},
+		{"target", `filegroup(name = "t")`}, {"local-label", `subinclude(":t")`},
 	}
 	for n := 1; n <= maxN; n++ {
 		for idx := 0; idx < ipow(len(stmts), n); idx++ {
@@ -858,7 +859,7 @@ func main() {
 			genDefs(2, 4, emit)
 			genStmts(false, emit)
 			genRules(2, false, emit)
-			genSubincludes(2, emit)
+			genSubincludes(3, emit)
 			genCorpus(emit)
 		} else {
 			genLiterals(emit)
@@ -869,7 +870,7 @@ func main() {
 			genDefs(2, 0, emit)
 			genStmts(true, emit)
 			genRules(3, true, emit)
-			genSubincludes(3, emit)
+			genSubincludes(4, emit)
 			genCorpus(emit)
 		}
 	}()
@@ -975,7 +976,7 @@ func main() {
 		"precondition 'a file that Please accepts' = the real asp parser+interpreter evaluates it without error as the BUILD file of //test/pkg with all built-in rules loaded; programs asp rejects are skipped and counted",
 		"a formatter ERROR (buildtools cannot parse the dialect, e.g. docs/commands.html#fmt: 'lacks one or two features') leaves the file untouched and is not a violation; counted in formatter_errors",
 		"'same targets with the same attributes' is read through the core.BuildTarget API (every exported field + declared deps/outputs): Please itself stores deps and outs sorted, so re-ordering those is invisible, while srcs/tools/data/labels order is an attribute value",
-		"subinclude() is replaced by a recorder of its flattened argument sequence (nothing is loaded); merged subincludes must give the same sequence",
+		"subinclude() is replaced by a recorder of its flattened argument sequence (nothing is loaded), each label together with the targets the package has and the variables the scope has at that call; merged subincludes must give the same sequence, i.e. a subinclude may not move across a statement it can observe",
 		"the repository's own BUILD files cannot be evaluated in isolation; for them only 'asp still parses the formatted text' and idempotence are checked",
 	}
 	r.Finish(lib.Coverage{
